@@ -1043,14 +1043,20 @@ pub fn gen_workload(run_seed: u64, engine: Engine, lim: &Limits, faults: bool) -
         Engine::S => 1,
         _ => {
             let hi = lim.max_threads.max(2);
-            if r.chance(7, 10) {
+            if r.chance(1, 2) {
                 r.range(2, 4.min(hi as i64)) as usize
             } else {
                 r.range(2, hi as i64) as usize
             }
         }
     };
-    let n_programs = r.range(4.min(lim.max_programs as i64), lim.max_programs as i64) as usize;
+    // swarm: a quarter of the workloads have every thread hammer the same one or two programs
+    // (maximal overlap on the same AST nodes, scopes of the same depth, the same cache slots)
+    let n_programs = if r.chance(1, 4) {
+        r.range(1, 2) as usize
+    } else {
+        r.range(4.min(lim.max_programs as i64), lim.max_programs as i64) as usize
+    };
     let stub_rate = if engine == Engine::M { *r.pick(&[150u64, 300]) } else { *r.pick(&[0u64, 60, 150, 300]) };
     let ill = *r.pick(&[0u64, 0, 10, 40]);
     // names visible to programs: root names plus everything scopes may define (type-preserving)
